@@ -48,17 +48,23 @@ class BodyMacroGen:
         self.unused_locals = [lid(n_, k) for n_ in self.local_names]
         self.items = []
         self.feats = set()
+        self.used = set()
 
     # ---- pieces
+    def pick(self, avail):
+        v = self.rng.choice(avail)
+        self.used.add(str(v))
+        return v
+
     def expr(self, avail):
         f = self.rng.choice(sorted(dl.FUNS))
         if f == "asi32":
             f = "incs"
-        return ["f", f, [self.rng.choice(avail) for _ in range(dl.FUNS[f][1])]]
+        return ["f", f, [self.pick(avail) for _ in range(dl.FUNS[f][1])]]
 
     def cond_if(self, avail):
         p = self.rng.choice(sorted(dl.PREDS))
-        return ["if", p, [self.rng.choice(avail) for _ in range(dl.PREDS[p][1])]]
+        return ["if", p, [self.pick(avail) for _ in range(dl.PREDS[p][1])]]
 
     def clause(self, force=(), rels=RELS, private=None):
         """a clause whose first arguments bind the variables in `force`; new locals go to `private` if given"""
@@ -67,22 +73,44 @@ class BodyMacroGen:
         name, arity, _ = rng.choice(cands)
         args, newly = [tv(v) for v in force], list(force)
         while len(args) < arity:
-            u = rng.random()
             avail = self.bound + newly + (private or [])
-            if u < 0.25 and self.unbound_io and not force and private is None:
+            opts = [("const", 1.0)]
+            if self.unbound_io and not force and private is None:
+                opts.append(("io", 3.0))
+            if self.unused_locals:
+                opts.append(("local", 2.0))
+            if avail:
+                opts.append(("bound", 3.0))
+            if self.eparams:
+                opts.append(("e", 1.5))
+            if self.bound:
+                opts.append(("expr", 0.8))
+            tot = sum(w for _, w in opts)
+            u, pick = rng.random() * tot, None
+            for name_, w in opts:
+                if u < w:
+                    pick = name_
+                    break
+                u -= w
+            pick = pick or "const"
+            if pick == "io":
                 v = self.unbound_io.pop(0)
                 args.append(tv(v))
                 newly.append(v)
-            elif u < 0.50 and self.unused_locals:
+            elif pick == "local":
                 v = self.unused_locals.pop(0)
                 args.append(tv(v))
                 (private if private is not None else newly).append(v)
-            elif u < 0.72 and avail:
-                args.append(tv(rng.choice(avail)))
-            elif u < 0.80 and self.eparams:
-                args.append(tv(rng.choice(self.eparams)))
+            elif pick == "bound":
+                v = rng.choice(avail)
+                args.append(tv(v))
+                self.used.add(str(v))
+            elif pick == "e":
+                v = rng.choice(self.eparams)
+                args.append(tv(v))
+                self.used.add(str(v))
                 self.feats.add("expr_param")
-            elif u < 0.88 and self.bound:
+            elif pick == "expr":
                 args.append(self.expr(self.bound))
             else:
                 args.append(["c", rng.choice(DOM)])
@@ -106,13 +134,13 @@ class BodyMacroGen:
         u = rng.random()
         if u < 0.5:
             f = rng.choice(["incs", "addm", "mod3", "decs", "max2"])
-            it = ["cond", ["let", x, f, [rng.choice(self.bound) for _ in range(dl.FUNS[f][1])]]]
+            it = ["cond", ["let", x, f, [self.pick(self.bound) for _ in range(dl.FUNS[f][1])]]]
         elif u < 0.75:
             f = rng.choice(sorted(dl.PARTIALS))
-            it = ["cond", ["iflet", x, f, [rng.choice(self.bound) for _ in range(dl.PARTIALS[f][1])]]]
+            it = ["cond", ["iflet", x, f, [self.pick(self.bound) for _ in range(dl.PARTIALS[f][1])]]]
         else:
             g = rng.choice(sorted(dl.GENS))
-            it = ["gen", x, g, [rng.choice(self.bound) for _ in range(dl.GENS[g][1])]]
+            it = ["gen", x, g, [self.pick(self.bound) for _ in range(dl.GENS[g][1])]]
         self.bound.append(x)
         return it
 
@@ -123,9 +151,9 @@ class BodyMacroGen:
         for _ in range(arity):
             u = rng.random()
             if u < 0.7:
-                args.append(tv(rng.choice(self.bound)))
+                args.append(tv(self.pick(self.bound)))
             elif u < 0.8 and self.eparams:
-                args.append(tv(rng.choice(self.eparams)))
+                args.append(tv(self.pick(self.eparams)))
             else:
                 args.append(["c", rng.choice(DOM)])
         self.feats.add("neg_in_macro")
@@ -158,9 +186,9 @@ class BodyMacroGen:
         rng = self.rng
         u = rng.random()
         if u < 0.3 and self.eparams:
-            return tv(rng.choice(self.eparams))
+            return tv(self.pick(self.eparams))
         if u < 0.6 and self.bound:
-            return tv(rng.choice(self.bound))
+            return tv(self.pick(self.bound))
         if u < 0.8 and self.bound:
             return self.expr(self.bound)
         return ["c", rng.choice(DOM)]
@@ -182,12 +210,13 @@ class BodyMacroGen:
                     v = rng.choice(pool)
                     if v in self.unbound_io:
                         binds.append(v)
+                    self.used.add(str(v))
                     acts.append(tv(v))
                 elif m == "in":
                     if not self.bound:
                         ok = False
                         break
-                    acts.append(tv(rng.choice(self.bound)))
+                    acts.append(tv(self.pick(self.bound)))
                 elif m == "new":
                     if not avail_new:
                         ok = False
@@ -219,27 +248,36 @@ class BodyMacroGen:
                 v = lid(rng.choice(POOL), self.k)
             self.items.append(["clause", "u0", [tv(v)], []])
             self.bound.append(v)
+        has_lower = any(s_["kind"] == "body" for s_ in self.lower.values())
         for _ in range(rng.randint(0, 3)):
             u = rng.random()
             it = None
-            if u < 0.30:
-                it = self.clause()
-            elif u < 0.42:
-                it = ["cond", self.cond_if(self.bound)]
-            elif u < 0.57:
-                it = self.binder()
-            elif u < 0.65:
-                it = self.neg()
-            elif u < 0.77:
-                it = self.disj()
-            else:
+            if has_lower and u < 0.35:
                 it = self.inv()
+            elif u < 0.55:
+                it = self.clause()
+            elif u < 0.65:
+                it = ["cond", self.cond_if(self.bound)]
+            elif u < 0.78:
+                it = self.binder()
+            elif u < 0.86:
+                it = self.neg()
+            else:
+                it = self.disj()
             if it is not None:
                 self.items.append(it)
         while self.unbound_io:
             self.items.append(self.clause(force=self.unbound_io[:2]))
         while self.pending_new:
             self.items.append(self.binder())
+        for i, m in enumerate(self.sig):          # every parameter is used at least once
+            if str(par(i)) in self.used:
+                continue
+            if m == "in":
+                self.items.append(["cond", ["if", rng.choice(["le", "ne", "lt"]), [par(i), rng.choice(self.bound)]]])
+            elif m == "e":
+                self.items.append(["clause", rng.choice(["u0", "u1", "d1"]), [tv(par(i))], []])
+                self.feats.add("expr_param")
         return dict(name=self.k, params=[[i, m != "e"] for i, m in enumerate(self.sig)], body=self.items), \
             dict(kind="body", sig=self.sig, locals=sorted({v[1] for v in _idents_items(self.items)}), feats=self.feats)
 
@@ -515,8 +553,27 @@ def _walk(items):
                 yield from _walk(alt)
 
 
+def variants(items, defs, depth=0):
+    """number of disjunction-free variants of a body after expansion (the macro turns each into a rule)"""
+    n = 1
+    for it in items:
+        if it[0] == "disj":
+            n *= sum(variants(a, defs, depth) for a in it[1])
+        elif it[0] == "inv" and it[1] in defs and depth < 50:
+            n *= variants(defs[it[1]]["body"], defs, depth + 1)
+    return n
+
+
 def gen_program(rng):
-    nm = rng.randint(1, 4)
+    while True:
+        p, feats = gen_program_once(rng)
+        defs = {d["name"]: d for d in p["macros"]}
+        if max(variants(r["body"], defs) for r in p["rules"]) <= 12:
+            return p, feats
+
+
+def gen_program_once(rng):
+    nm = rng.randint(1, 5)
     macros, sigs = [], {}
     for k in range(nm):
         if rng.random() < 0.3:
@@ -645,10 +702,11 @@ def gen_recursive(rng, i):
     return kind, dict(rels=copy.deepcopy(RELS), macros=ms, rules=[dict(heads=heads, body=rb)], head_macros=hm)
 
 
-def chain(n):
-    """n macros, each invoking the previous one: not recursive, nesting depth n"""
+def chain(n, disj=False):
+    """n macros, each invoking the previous one (inside a one-alternative disjunction if disj): not recursive"""
     ms = [dict(name=0, params=[[0, True]], body=[["clause", "e0", [tv(par(0)), tv(lid("y", 0))], []]])]
     for k in range(1, n):
-        ms.append(dict(name=k, params=[[0, True]], body=[["inv", k - 1, [tv(par(0))]]]))
+        inv = ["inv", k - 1, [tv(par(0))]]
+        ms.append(dict(name=k, params=[[0, True]], body=[["disj", [[inv]]] if disj else inv]))
     r = dict(heads=[["h", "d1", [tv(cid("a"))]]], body=[["inv", n - 1, [tv(cid("a"))]]])
     return dict(rels=copy.deepcopy(RELS), macros=ms, rules=[r], head_macros=[])
